@@ -25,8 +25,10 @@ import RuxModel.Props.C10
       (nothing ⇒ 200 or the status set before the panic;      (+ the `…_committed` variants: already committed
        status only; status + body)                             before the panic ⇒ no second commit), C09_committed
   without a hook the panic propagates unchanged              C09_no_hook_propagates
-  the router stays usable (every later request = fresh)      C09_healthy (+ C09_lost_context_never_reused,
+  the router stays usable (every later request = fresh)      C09_healthy, C09_healthy_reconfigured
+                                                              (+ C09_lost_context_never_reused,
                                                               C10_serve_as_fresh, C10_pool_invariant)
+  the theorems speak about every chain rux accepts           C09_in_model (≤ 64 handlers ⇒ never `Stop.off`)
   in-chain PanicsHandler                                     C09_panicsHandler_recovers, C09_panicsHandler_500,
                                                               C09_panicsHandler_dispatch
 
@@ -262,6 +264,58 @@ theorem C09_lost_context_never_reused (cfg : Cfg) (pool : List Ctx) (pick : Opti
 theorem C09_healthy (cfg : Cfg) (steps : List Step) (pool : List Ctx) (h : PoolOk cfg.rid pool) :
     (runHist cfg pool steps).1 = (Step.reqs steps).map (serveFresh cfg) :=
   C10_history cfg steps pool h
+
+/-- the same when the router is reconfigured between the requests (OnPanic / OnError installed, replaced or
+    removed at any time): each request's result is its result on a fresh router with the configuration of
+    that moment -/
+theorem C09_healthy_reconfigured (rid : Nat) (steps : List (Cfg × Option Nat × Req)) (pool : List Ctx)
+    (h : PoolOk rid pool) (hc : ∀ s ∈ steps, s.1.rid = rid) :
+    runHistCfg pool steps = steps.map (fun s => serveFresh s.1 s.2.2) := by
+  induction steps generalizing pool with
+  | nil => rfl
+  | cons s rest ih =>
+    obtain ⟨cfg, pick, rq⟩ := s
+    have hr : cfg.rid = rid := hc (cfg, pick, rq) (by simp)
+    subst hr
+    simp only [runHistCfg, List.map_cons]
+    rw [C10_serve_as_fresh cfg pool pick rq h]
+    rw [ih _ (C10_pool_invariant cfg pool pick rq h) (fun s hs => hc s (List.mem_cons_of_mem _ hs))]
+
+/-- the model covers every chain rux accepts: with at most 64 handlers in the chain (registration refuses 63
+    and more per route and for the globals), `handleHTTPRequest` never leaves the modelled fragment
+    (`Stop.off` = "Abort moved the cursor backwards") — so every theorem above speaks about all such requests -/
+theorem C09_in_model (cfg : Cfg) (rq : Req) (c : Ctx) (hlen : rq.chain.length ≤ 64) (hidx : c.index = -1) :
+    (handleRequest cfg rq c).2 ≠ some .off := by
+  have hidx' : (start rq c).ctx.index = -1 := by
+    cases hk : rq.kind <;> simp [start, prelude, hk, Ctx.set, hidx]
+  have hl := loop_fwd rq.chain 0 (start rq c) (by simp [start]) (by simpa [start] using hlen)
+    (by rw [hidx']; decide) (by rw [hidx']; decide)
+  have hb : (body cfg rq c).2 ≠ some .off := by
+    unfold body
+    generalize loop 0 rq.chain (start rq c) = r at hl
+    obtain ⟨s, x⟩ := r
+    cases x with
+    | some x => exact hl.noOff
+    | none =>
+      simp only
+      generalize runOnError cfg s = r2
+      obtain ⟨s2, x2⟩ := r2
+      cases x2 <;> simp
+  unfold handleRequest
+  split
+  · exact hb
+  · generalize body cfg rq c = r at hb
+    obtain ⟨s, x⟩ := r
+    cases x with
+    | none => simp
+    | some x =>
+      cases x with
+      | off => exact absurd rfl hb
+      | panic v =>
+        simp only
+        generalize runS .hook _ (hookStart v s) = r2
+        obtain ⟨s2, x2⟩ := r2
+        cases x2 <;> simp
 
 /-! ### the in-chain `PanicsHandler` -/
 
